@@ -14,8 +14,8 @@ Constraints == {
     <<"ADD", "CHECK", "(", "C", "=", "#", "[", "Color", ".", "Red", "]", "OR", "C", "=", "#", "[", "Color", ".", "Blue", "]", ")">>,
     <<"ADD", "FOREIGN", "KEY", "(", "A", ")", "REFERENCES", "Order", "ON", "DELETE", "CASCADE">>,
     <<"ADD", "FOREIGN", "KEY", "(", "A", ",", "B", ")", "REFERENCES", "Item", "(", "A", ",", "B", ")">>,
-    <<"CREATE", "UNIQUE", "INDEX", "idx_items", "ON", "Item", "(", "B", ")">>,
-    <<"ADD", "CHECK", "(", "Items", ">", "MyItem", "+", "item", "+", "Orderly", ")">>,
+    <<"CREATE", "UNIQUE", "INDEX", "idx_Item", "ON", "Item", "(", "B", ")">>,
+    <<"ADD", "CHECK", "(", "Items", ">", "MyItem", "+", "item", "+", "Orderly", "+", "fk_Order", "+", "x2Item", ")">>,
     <<"_SELECT", "KEY", "(", "A", ",", "B", ")">>,
     <<"ADD", "CHECK", "(", "B", "<>", "'order'", "AND", "A", "<", "10", ")">> }
 
